@@ -441,6 +441,7 @@ func TestC13(t *testing.T) {
 	rids := []string{"r0", "r1", "r2"}
 	rapidCheck(t, "C13/graphs", tier(4000, 300000), func(rt *rapid.T) {
 		c := c13Case{}
+		c.Source = rapid.SampledFrom([]string{"", "", "ttml", "ttml", "ssa", "vtt"}).Draw(rt, "source")
 		ns := rapid.IntRange(0, 6).Draw(rt, "nstyles")
 		for i := 0; i < ns; i++ {
 			st := c13Style{ID: ids[i]}
@@ -457,6 +458,10 @@ func TestC13(t *testing.T) {
 		nr := rapid.IntRange(0, 3).Draw(rt, "nregions")
 		for i := 0; i < nr; i++ {
 			rg := c13Region{ID: rids[i]}
+			if c.Source == "" || c.Source == "vtt" {
+				// styles and regions live in separate maps: the same identifier may name one of each
+				rg.ID = []string{"s1", "r1", "s3"}[i]
+			}
 			if ns > 0 && rapid.Bool().Draw(rt, "rstyle") {
 				rg.Style = ids[rapid.IntRange(0, ns-1).Draw(rt, "rstyleid")]
 			}
@@ -469,7 +474,7 @@ func TestC13(t *testing.T) {
 				cu.Style = ids[rapid.IntRange(0, ns-1).Draw(rt, "cstyleid")]
 			}
 			if nr > 0 && rapid.IntRange(0, 2).Draw(rt, "cregion") == 0 {
-				cu.Region = rids[rapid.IntRange(0, nr-1).Draw(rt, "cregionid")]
+				cu.Region = c.Regions[rapid.IntRange(0, nr-1).Draw(rt, "cregionid")].ID
 			}
 			nrun := rapid.IntRange(1, 2).Draw(rt, "nruns")
 			for k := 0; k < nrun; k++ {
@@ -481,7 +486,6 @@ func TestC13(t *testing.T) {
 			}
 			c.Cues = append(c.Cues, cu)
 		}
-		c.Source = rapid.SampledFrom([]string{"", "", "ttml", "ttml", "ssa", "vtt"}).Draw(rt, "source")
 		c.RemoveStyling = rapid.IntRange(0, 4).Draw(rt, "removestyling") == 0
 		// labels
 		wantS, wantR := reachC13(c)
